@@ -76,6 +76,15 @@ def check_C01(res, scratch, tier, seed):
         run_family(res, scratch, "F2r3s", mcgram_cfg([1], [11, 12], 2, 3, 5, False, [0], False), mk("sparse"),
                    builds=builds, mine=only("C01"))
     corpus_part(res, scratch, tier, seed, "C01", matrix, ("curated", "chains", "random", "wide"), builds=builds, want_trees=False)
+    # (D) design: the ideal Earley sets of Earley.tla agree with the declarative oracle on a small family
+    t = run_tlc(scratch, "MCEarley", mcgram_cfg([1, 2], [11, 12], 2, 2, 3, True, [0], False, invariants=("EarleyDesign",)), "earley_design", timeout=1500)
+    if t["status"] == "violation":
+        res.violation("spec-invariant:EarleyDesign", {"tlc_tail": t["tail"][-2500:]})
+    elif t["status"] != "ok":
+        raise Infra("TLC MCEarley: %s\n%s" % (t["status"], t["tail"][-2500:]))
+    res.add_tlc(t)
+    # (T) every Earley set the library places is a subset of the ideal set (hook SET), validated by TLC
+    earley_trace_part(res, scratch, tier, seed, builds, ("C01",))
     res.cov["exhaustive"] = True
     res.assumptions = ["small-scope: exhaustive only over the stated families; the corpus (curated, chain families, seeded random) is a sample judged by TLC",
                        "vectors are computed by TLC from spec/Deriv.tla"]
@@ -468,6 +477,8 @@ def check_C09(res, scratch, tier, seed):
     recs, st = run_harness(os.path.join(builds[0], "yv_replay"), blocks, args=("-t",), timeout=1500)
     handle_c09_recs(res, recs, mine, {})
     all_groups += la_groups(recs)
+    # --- the sets reused from the cache and their fresh re-computations are valid Earley sets (EarleyTrace.tla)
+    earley_trace_part(res, scratch, tier, seed + 1, builds, ("C09",), kinds=("curated", "random", "random_err", "random_trans"))
     # --- TLC validates the groups
     ok, rej, tt = validate_trace(scratch, "LaTrace", all_groups, "latrace", timeout=1500)
     if not ok:
@@ -1054,3 +1065,63 @@ def check_C12(res, scratch, tier, seed):
     feed(os.path.join(plain, "yv_replay"), blocks, "names-symbols-codes-plain")
     res.cov["distinct_nontrivial"] = max(nontriv, 2)
     res.cov["samples"].append({"text_mutation": muts[len(muts) // 2].decode(errors="replace")})
+
+
+# ------------------------------------------------------------------ set-level trace validation (EarleyTrace.tla): part of C01 and C09
+def earley_trace_part(res, scratch, tier, seed, builds, props, kinds=("curated", "random", "random_err"), max_parses=None):
+    """Record the hook events (every placed Earley set, every fresh re-computation at a cache hit) of corpus parses and let TLC
+    validate them against the ideal sets of Earley.tla."""
+    import concurrent.futures as cf
+    ents = [e for e in corpus_entries(tier, seed + 11, kinds) if len(e["rules"]) <= 8]
+    vecs = corpus_vectors(res, scratch, "corpus_sets", ents, trees=False, timeout=3000)
+    matrix = [(0, 1, 0, 1, 3, 0), (1, 1, 0, 1, 2, 0), (2, 1, 0, 1, 3, 0), (0, 1, 0, 0, 3, 0)]
+    blocks = [b for b in (blocks_from_vector(v, matrix, mems=(1,), want_trees=False, max_cases=12) for v in vecs.values()) if b]
+    code = CODEMAPS["ascii"]
+    recs, st = run_harness(os.path.join(builds[0], "yv_replay"), blocks, args=("-t", "-s"))
+    lines = []
+    for r in recs:
+        if r.get("e") == "Abort":
+            res.violation(abort_key(r), dict(r, block=(r.get("block") or [])[:20]))
+        if r.get("k") != "parse" or r["n"] > 10:
+            continue
+        vec = vecs.get(r["g"])
+        if not vec:
+            continue
+        c2n = {code(t["c"]): t["n"] for t in vec["terms"]}
+        c2n[-2] = 0
+        c2n[-1] = -1
+        evs = []
+        for ev in r.get("ev", []):
+            if ev["k"] in (1, 2):
+                evs.append({"k": ev["k"], "a": ev["a"], "c": ev["c"], "e": ev["e"], "f": c2n.get(ev["f"], -99) if ev["a"] > 0 else 0, "it": [it[:3] for it in ev["it"]]})
+        lines.append({"id": "%s/%s/%d,%d" % (r["g"], r["w"], r["la"], r["rec"]), "terms": [t["n"] for t in vec["terms"]], "rules": vec["rules"], "n": r["n"],
+                      "la": r["la"], "ev": evs})
+    rnd = random.Random(seed)
+    cap = max_parses or (4000 if tier == "quick" else 40000)
+    if len(lines) > cap:
+        lines = rnd.sample(lines, cap)
+    chunks = [lines[i:i + 500] for i in range(0, len(lines), 500)]
+
+    def work(args):
+        i, ch = args
+        return validate_trace(scratch, "EarleyTrace", ch, "sets_tr%d" % i, timeout=3000), ch
+    ndiag = 0
+    nsets = 0
+    with cf.ThreadPoolExecutor(max_workers=max(1, NCPU // 2)) as ex:
+        for (ok, rej, tt), ch in ex.map(work, list(enumerate(chunks))):
+            if not ok:
+                raise Infra("EarleyTrace validation did not finish: " + tt["tail"][-2500:])
+            res.cov["states"] += tt.get("distinct", 0)
+            res.cov["transitions"] += tt.get("states", 0)
+            res.cov["traces_validated_against_impl"] += len(ch)
+            nsets += sum(len(ln["ev"]) for ln in ch)
+            for (lno, lid, reasons) in rej:
+                for reason in reasons:
+                    if reason.startswith("DIAG"):
+                        ndiag += 1
+                    elif any(reason.startswith(p) for p in props):
+                        res.violation("trace|" + reason, {"line": ch[lno - 1], "reason": reason})
+    res.notes["set_events_validated"] = res.notes.get("set_events_validated", 0) + nsets
+    res.notes["diag_sets_differing_from_ideal_at_la0"] = res.notes.get("diag_sets_differing_from_ideal_at_la0", 0) + ndiag
+    if lines:
+        res.cov["samples"].append({"set_trace_line": lines[len(lines) // 2]})
